@@ -768,6 +768,132 @@ def _atom_hook_factory(extra=None):
     return hook
 
 
+_SINGLE_STEP_SPEC = """
+def _single_step(self, rk_state, t1):
+    f0, t0, y0, h = rk_state
+    accepted = False
+    prev_rejected = False
+    while not accepted:
+        t1_achieved = t0 + h > t1
+        hstep = t1 - t0 if t1_achieved else h
+        tnew = t0 + hstep
+        abck = (self.A, self.B, self.C, self.K)
+        ynew, fnew = rk_step(self.func, t0, y0, f0, hstep, abck)
+        scale = self.atol + torch.max(y0.norm(), ynew.norm()) * self.rtol
+        errnorm = self._error_norm(self.K, hstep) / scale
+        accepted = errnorm < 1
+        if accepted and not t1_achieved:
+            if errnorm == 0:
+                factor = self.max_factor
+            else:
+                factor = min(self.max_factor, self.step_mult * errnorm ** self.error_exponent)
+            if prev_rejected:
+                factor = min(1.0, factor)
+            h *= factor
+        elif not accepted:
+            factor = max(self.min_factor, self.step_mult * errnorm ** self.error_exponent)
+            h = hstep * factor
+        prev_rejected = not accepted
+    rk_state = (fnew, tnew, ynew, h)
+    return rk_state, t1_achieved
+"""
+
+_STEP_SPEC = """
+def _step(self, rk_state, t1):
+    t1_achieved = False
+    while not t1_achieved:
+        rk_state, t1_achieved = self._single_step(rk_state, t1)
+    return rk_state
+"""
+
+
+def _loop_parts(fnode):
+    """(statements before, the loop, statements after) of a function whose body has exactly one top-level `while`"""
+    body = [st for st in fnode.body if not (isinstance(st, ast.Expr) and isinstance(st.value, ast.Constant))]
+    idx = [i for i, st in enumerate(body) if isinstance(st, ast.While)]
+    if len(idx) != 1 or body[idx[0]].orelse:
+        return None
+    if any(isinstance(n, (ast.While, ast.For)) for st in body[:idx[0]] + body[idx[0] + 1:] for n in ast.walk(st)):
+        return None
+    return body[:idx[0]], body[idx[0]], body[idx[0] + 1:]
+
+
+def _loop_semantics(fi: FuncInfo, spec_src: str, R: RuleResult, what: str, max_trips: int = 3) -> Optional[bool]:
+    """The function and its specification (reference code kept in the checker) are both evaluated over symbolic terms through up to
+    `max_trips` trips of their loop, for every consistent assignment of the tests the terms leave open (the acceptance test, the
+    overshoot test, ..; keyed by the test's *term*, so `accepted`, `not errnorm < 1` and `errnorm >= 1` are one decision).  On every
+    assignment the returned terms must be equal.  Flag loops, `while True` with return / continue / break and guard clauses are all
+    the same to this comparison.  Returns True (decided, reported), False (undecided: the caller may fall back), None (not applicable)."""
+    from ..domains import tensorterm as tt
+    parts = _loop_parts(fi.node)
+    sfn = ast.parse(spec_src).body[0]
+    sparts = _loop_parts(sfn)
+    if parts is None or sparts is None:
+        return None
+    cps, sps = fi.params(), [a.arg for a in sfn.args.args]
+    if len(cps) != len(sps):
+        return None
+    syms = {i: ("op", "name", "arg%d" % i) for i in range(len(sps))}
+    cenv = {p_: syms[i] for i, p_ in enumerate(cps)}
+    senv = {p_: syms[i] for i, p_ in enumerate(sps)}
+
+    def run_both(ch):
+        return (tt.simulate_loop(parts[0], parts[1], parts[2], cenv, ch, max_trips=max_trips),
+                tt.simulate_loop(sparts[0], sparts[1], sparts[2], senv, ch, max_trips=max_trips))
+    try:
+        outcomes = tt.all_outcomes(run_both)
+    except tt.Unsupported as e:
+        R.undecided(fi, fi.node, "cannot interpret %s over terms: %s" % (what, e))
+        return False
+    n_ok = 0
+    for ch, (got, want) in outcomes:
+        if got == want:
+            n_ok += 1
+            continue
+        label = ", ".join("%s%s" % ("" if v_ else "NOT ", tt.show(k_)[:70]) for k_, v_ in ch.items())
+        if got[0] == "return" and want[0] == "return" and tt.foreign_operators(got[1], want[1]):
+            R.undecided(fi, fi.node, "cannot interpret %s: it uses %s, which the specification term does not" % (what, tt.foreign_operators(got[1], want[1])))
+            return False
+        rets = [r for r in own_nodes(fi.node) if isinstance(r, ast.Return)]
+        R.bad(fi, rets[-1] if rets else fi.node, "%s differs from its specification when [%s]: it %s %s, the specification %s %s" %
+              (what, label, got[0] + "s" if got[0] == "return" else got[0], tt.show(got[1])[:300] if got[1] is not None else "",
+               want[0] + "s" if want[0] == "return" else want[0], tt.show(want[1])[:300] if want[1] is not None else ""))
+        return True
+    R.ok(fi.fq, "%s equals its specification on all %d consistent outcomes of the open tests (up to %d trips of the loop; term comparison)" % (what, n_ok, max_trips))
+    return True
+
+
+def _controller_rest(model: Model, X: RuleResult, base):
+    # _error_norm: norm of (K^T E) * h
+    enf = base.find_method("_error_norm")
+    if enf is None:
+        raise AnchorError("anchor function vanished: RKAdaptiveStepSolver._error_norm")
+    try:
+        em = _ErrNorm(enf)
+        if em.ok:
+            X.ok(enf.fq, "_error_norm returns || sum_m K[m] E[m] * h || over all n_stages+1 rows")
+        else:
+            X.bad(enf, enf.node, "the error estimate is not the norm of h * sum_m E[m] K[m] over the whole stage buffer: %s" % em.why)
+    except Uninterpretable as e:
+        raise AnalysisError("C07-X: cannot interpret _error_norm: %s" % e)
+    # the stage buffer has n_stages + 1 rows and is the one handed to rk_step
+    setup = base.find_method("setup")
+    kal = [s for s in own_nodes(setup.node) if isinstance(s, ast.Assign) and any(_self_attr(t) == "K" for t in s.targets)]
+    okK = False
+    if len(kal) == 1 and isinstance(kal[0].value, ast.Call) and kal[0].value.args:
+        shp = kal[0].value.args[0]
+        if isinstance(shp, (ast.Tuple, ast.List)) and shp.elts:
+            try:
+                r0 = eval_expr(shp.elts[0], {}, lambda e: S("ns") if _self_attr(e) == "n_stages" else None)
+                okK = r0.eq(S("ns") + C(1))
+            except Uninterpretable:
+                okK = False
+    if okK:
+        X.ok(setup.fq, "the stage buffer has n_stages + 1 rows (the FSAL slot exists): `%s`" % norm_stmt(kal[0]))
+    else:
+        X.bad(setup, kal[0] if kal else setup.node, "the stage buffer must be allocated with n_stages + 1 rows")
+
+
 def _controller(model: Model, X: RuleResult, L: RuleResult, rm: "_RkStepModel"):
     base = model.cls(ARK, "RKAdaptiveStepSolver")
     init = base.find_method("__init__")
@@ -792,6 +918,18 @@ def _controller(model: Model, X: RuleResult, L: RuleResult, rm: "_RkStepModel"):
     ss = base.find_method("_single_step")
     if ss is None:
         raise AnchorError("anchor function vanished: RKAdaptiveStepSolver._single_step")
+    sem = _loop_semantics(ss, _SINGLE_STEP_SPEC, X, "the accept / reject loop of _single_step (scaled error test, landing on t1, step-size update, returned state)")
+    if sem:
+        for txt in ("accepted <=> ||K^T E h|| / (atol + rtol*max(|y|,|ynew|)) < 1 with h the step actually taken",
+                    "a trial step that would pass the requested time is shortened to land exactly on it: t0 + (t1 - t0)",
+                    "step-size update: growth min(max_factor, c*err^e) (capped at 1 after a rejection), rejection h <- h_taken * max(min_factor, c*err^e)",
+                    "the only way out of the step loop is an accepted trial"):
+            X.ok(ss.fq, txt + " [implied by the term comparison with the specification]")
+        L.ok(ss.fq, "rk_step receives (self.A, self.B, self.C, self.K) and self.func, the new state is (fnew, t0 + h_taken, ynew, h) plus the achieved flag "
+             "[term comparison with the specification]")
+        L.ok(ss.fq, "the state tuple is unpacked and re-packed in one layout [term comparison with the specification]")
+        _controller_rest(model, X, base)
+        return _layout(ss, rm)
     defs = function_defs(ss.node)
     loops = [w for w in own_nodes(ss.node) if isinstance(w, ast.While)]
     if len(loops) != 1:
@@ -874,34 +1012,7 @@ def _controller(model: Model, X: RuleResult, L: RuleResult, rm: "_RkStepModel"):
         X.ok(ss.fq, "accepted <=> ||K^T E h|| / (atol + rtol*max(|y|,|ynew|)) < 1 with h the step actually taken (`%s`)" % step_txt)
     else:
         X.bad(ss, fasg[0], "the accepted-step test is not error_norm(K, h_taken)/(atol + rtol*max(|y|,|ynew|)) < 1: normal form %r, expected %r" % (en, expected))
-    # _error_norm: norm of (K^T E) * h
-    enf = base.find_method("_error_norm")
-    if enf is None:
-        raise AnchorError("anchor function vanished: RKAdaptiveStepSolver._error_norm")
-    try:
-        em = _ErrNorm(enf)
-        if em.ok:
-            X.ok(enf.fq, "_error_norm returns || sum_m K[m] E[m] * h || over all n_stages+1 rows")
-        else:
-            X.bad(enf, enf.node, "the error estimate is not the norm of h * sum_m E[m] K[m] over the whole stage buffer: %s" % em.why)
-    except Uninterpretable as e:
-        raise AnalysisError("C07-X: cannot interpret _error_norm: %s" % e)
-    # the stage buffer has n_stages + 1 rows and is the one handed to rk_step
-    setup = base.find_method("setup")
-    kal = [s for s in own_nodes(setup.node) if isinstance(s, ast.Assign) and any(_self_attr(t) == "K" for t in s.targets)]
-    okK = False
-    if len(kal) == 1 and isinstance(kal[0].value, ast.Call) and kal[0].value.args:
-        shp = kal[0].value.args[0]
-        if isinstance(shp, (ast.Tuple, ast.List)) and shp.elts:
-            try:
-                r0 = eval_expr(shp.elts[0], {}, lambda e: S("ns") if _self_attr(e) == "n_stages" else None)
-                okK = r0.eq(S("ns") + C(1))
-            except Uninterpretable:
-                okK = False
-    if okK:
-        X.ok(setup.fq, "the stage buffer has n_stages + 1 rows (the FSAL slot exists): `%s`" % norm_stmt(kal[0]))
-    else:
-        X.bad(setup, kal[0] if kal else setup.node, "the stage buffer must be allocated with n_stages + 1 rows")
+    _controller_rest(model, X, base)
     # pack site of abck agrees with the unpack roles in rk_step
     ab = rkb.get(rm.p_abck)
     abv = body_defs.get(ab.id) if isinstance(ab, ast.Name) else ab
@@ -1092,7 +1203,10 @@ def _adaptive_driver(model: Model, Z: RuleResult, I: RuleResult, L: RuleResult, 
     if okstep:
         I.ok(step.fq, "_step repeats _single_step on the threaded state until the requested time is reached, for that time only")
     else:
-        I.bad(step, step.node, "_step must thread the state through _single_step(rk_state, t1) until t1 is achieved and return that state")
+        # another arrangement of the loop: decide by comparing with the specification over terms (three trips)
+        sem = _loop_semantics(step, _STEP_SPEC, I, "_step (single steps on the threaded state until the requested time is reached)")
+        if sem is None:
+            I.bad(step, step.node, "_step must thread the state through _single_step(rk_state, t1) until t1 is achieved and return that state")
     # ---- solve
     defs = function_defs(solve.node)
     src_attr = {}
